@@ -155,7 +155,7 @@ def _worker(exe, sub_args, cases, results, idx, hang_s, as_gb, stack_kb):
                 pass
 
 
-def run_batch(cases, sub_args=("run",), profile="chk", nworkers=None, hang_s=20, as_gb=4, stack_kb=8192):
+def run_batch(cases, sub_args=("run",), profile="chk", nworkers=None, hang_s=20, as_gb=1, stack_kb=8192):
     """Run cases (dicts with unique 'id') over a pool; returns {id: observation}."""
     exe = build(profile)
     nworkers = nworkers or NCPU
@@ -184,6 +184,8 @@ def run_batch(cases, sub_args=("run",), profile="chk", nworkers=None, hang_s=20,
 
 def obs_core(o):
     """The compared part of an observation: status, value, error class, log."""
+    if str(o.get("status", "")).startswith("death"):
+        return "death|||[]"  # the signal depends on how the limit was hit; the class is what is compared
     return "%s|%s|%s|%s" % (o.get("status"), o.get("value"), o.get("err"), json.dumps(o.get("log", [])))
 
 
@@ -243,8 +245,9 @@ class Check:
         self.assumptions = []
         self.notes = []
 
-    def fail(self, key, obs, title, replay):
-        """Report a failing case. key: stable case identity string; obs: wrong observation string."""
+    def fail(self, key, obs, title, replay, cluster=None):
+        """Report a failing case. key: stable case identity string; obs: wrong observation string;
+        cluster: root-cause bucket used by tools/triage.py when recording known findings."""
         k = sha(key)
         d = sha(obs, 8)
         self.seen_keys.add(k)
@@ -252,7 +255,7 @@ class Check:
         if fid:
             self.matched[fid] = self.matched.get(fid, 0) + 1
             return False
-        self.violations.append({"key": k, "digest": d, "title": title, "case": key, "observed": obs, "replay": replay})
+        self.violations.append({"key": k, "digest": d, "title": title, "case": key, "observed": obs, "replay": replay, "cluster": cluster or title[:60]})
         return True
 
     def resolved(self):
@@ -284,12 +287,12 @@ class Check:
             allv = os.path.join(rdir, "all_%s.jsonl" % self.tier)
             with open(allv, "w") as f:
                 for v in self.violations:
-                    f.write(json.dumps({"key": v["key"], "digest": v["digest"], "title": v["title"], "case": v["case"], "observed": v["observed"]}) + "\n")
+                    f.write(json.dumps({"key": v["key"], "digest": v["digest"], "title": v["title"], "cluster": v["cluster"], "observed": v["observed"][:300]}) + "\n")
             n = 0
             for v in self.violations:
-                c = shown.get(v["title"], 0)
-                shown[v["title"]] = c + 1
-                if c >= 3 or n >= 40:
+                c = shown.get(v["cluster"], 0)
+                shown[v["cluster"]] = c + 1
+                if c >= 2 or n >= 40:
                     continue
                 n += 1
                 path = os.path.join(rdir, "%s.json" % v["key"])
